@@ -44,6 +44,11 @@ fn feed_all(r: &mut Runner, data: &[u8], cuts: &[usize]) -> Result<Vec<Step>, St
         if end <= start {
             continue;
         }
+        if si > 0 && (si + data.len()) % 3 == 0 {
+            if let Some(e) = r.empty_read(si % 2 == 0) {
+                return Err(e);
+            }
+        }
         r.script.push_read(ReadEv::Data(data[start..end].to_vec(), Vec::new()));
         start = end;
         while r.script.pending_reads() > 0 {
